@@ -139,10 +139,12 @@ class C14(core.Check):
         "cube sides >= 0.5 (below ~0.02 the guard term outweighs the aspect term)",
     ]
     partial_note = (
-        "Scale invariance is a theorem for the scale-free signature Sig0 (guard = 0) only; with the guard the implementation "
-        "value of a unit cube is 0.173, of a 0.1 cube 1.80, of a 100 cube 0.0017 (envelope-checked). Monotonicity of the float "
-        "post-processing (pow/log10) in the aspect ratio is checked by the oracle, not proved. Quad renumbering is proved for "
-        "planar convex quadrilaterals on Sig0."
+        "Scale invariance is exact for the scale-free signature Sig0 (guard = 0); with the guard, the change of every guarded "
+        "arccos / log10 argument of the scaled cell is bounded (T_C14_guard_scale: e/(k^2|n|), e/(k|s1|)+e/(k|s2|), relative "
+        "e/(k min edge)), the propagation through acos/pow/log10 is not a theorem (implementation: unit cube 0.173, 0.1 cube "
+        "1.80, 100 cube 0.0017, envelope-checked). Monotonicity of the float post-processing (pow/log10) in the aspect ratio is "
+        "checked by the oracle, not proved. Quad renumbering is proved on Sig0 for planar convex quadrilaterals (= all four "
+        "corner normals positively parallel) and disproved by counterexample for a concave and a non-planar one."
     )
 
     def static_checks(self) -> List[str]:
